@@ -171,7 +171,12 @@ class ComputeTypeVisitor(Visitor.DefaultVisitor):
                 )
                 expr.SetType(expr.GetOperator().GetReturnType())
             elif isinstance(expr, ast.AffixExpression):
-                expr.SetType(expr.children[0].GetType())
+                operandType = expr.children[0].GetType()
+                # There is no vector or matrix increment: the VM would add
+                # the scalar 1 to a list
+                if not (operandType.IsPrimitive() and operandType.IsScalar()):
+                    Errors.ERROR_INVALID_AFFIX_OPERAND.Raise(operandType)
+                expr.SetType(operandType)
             elif isinstance(expr, ast.ConstructPrimitiveExpression):
                 self._ValidateConstructorArguments(expr)
 
